@@ -85,6 +85,10 @@ def repo_rev():
 # one run, guarded
 # --------------------------------------------------------------------------------------
 
+def _wall(check):
+    return getattr(check, "RUN_WALL_S", RUN_WALL_S)
+
+
 def _alarm(_sig, _frm):
     raise WallTimeout()
 
@@ -121,6 +125,7 @@ class Agg:
         self.run_digests = {}      # case index -> digest (first N cases)
         self.errors = []
         self.n_violations = 0
+        self.hang_seen = False     # a run tripped the wall-clock backstop: stop early, every further such run costs the full backstop
 
     def add_run(self, idx, out, rec, keep_digest):
         self.evaluations += 1
@@ -162,6 +167,7 @@ class Agg:
         self.run_digests.update(o.run_digests)
         self.errors += o.errors
         self.n_violations += o.n_violations
+        self.hang_seen = self.hang_seen or o.hang_seen
 
     def pack(self):
         d = dict(self.__dict__)
@@ -217,7 +223,9 @@ def run_case(check, base_seed, idx, agg, selftest_n, want_sample, prefix=None):
     agg.cases += 1
     if want_sample and out.sample is not None:
         agg.samples.append((idx, out.sample))
-    if out.fanout is not None:
+    if out.violation == "hang":
+        agg.hang_seen = True
+    if out.fanout is not None and out.violation != "hang":
         pos, n = out.fanout
         base = list(rec[:pos])
         for v in range(n):
@@ -229,6 +237,9 @@ def run_case(check, base_seed, idx, agg, selftest_n, want_sample, prefix=None):
             if keep:
                 chain.update(log_digest(o2.log).encode())
                 chain.update(repr(ch2.rec).encode())
+            if o2.violation == "hang":
+                agg.hang_seen = True
+                break
     if keep:
         agg.run_digests[idx] = chain.hexdigest()
 
@@ -249,6 +260,8 @@ def episode_child(check, base_seed, indices, selftest_n, sample_idx, wfd, system
                 run_case(check, base_seed, idx, agg, selftest_n, idx in sample_idx, prefix)
             except BaseException:
                 agg.errors.append(f"case {idx}: harness exception\n{traceback.format_exc()}")
+                break
+            if agg.hang_seen:
                 break
         if hasattr(check, "teardown_process"):
             check.teardown_process()
@@ -317,6 +330,9 @@ def worker_main(check, base_seed, episodes, selftest_n, sample_idx, systematic, 
         agg.merge(a)
         if len(agg.errors) > 3:
             break
+        if agg.hang_seen:
+            # the property is already violated; the rest of this worker's share is not run (counted as truncated)
+            stop_at = 0
     d = agg.pack()
     with os.fdopen(wfd, "wb") as f:
         f.write(len(d).to_bytes(8, "big"))
@@ -444,7 +460,7 @@ def minimise(check, viol, budget_s=60, max_execs=2000):
                     o, chx = replay_choices(check, c)
                     return (o.violation, chx.rec)
                 try:
-                    v, rec = in_child(one, RUN_WALL_S * 3)
+                    v, rec = in_child(one, _wall(check) * 2 + 30)
                 except RuntimeError:
                     return False, c
                 return v == kind, rec
@@ -452,10 +468,10 @@ def minimise(check, viol, budget_s=60, max_execs=2000):
             return o.violation == kind, chx.rec
 
         deadline = time.monotonic() + budget_s
-        return shrink(viol["choices"], still, max_execs=max_execs, deadline=deadline)
+        return shrink(viol["choices"], still, max_execs=(4 if kind == "hang" else max_execs), deadline=deadline)
 
     try:
-        best, execs = in_child(job, budget_s + RUN_WALL_S * 4 + 60)
+        best, execs = in_child(job, budget_s + _wall(check) * 6 + 60)
     except RuntimeError as e:
         return viol["choices"], 0, str(e)
     return best, execs, None
@@ -468,7 +484,7 @@ def write_replay(check, viol, minimal, base_seed, note=""):
         o, chx = replay_choices(check, minimal, render=True)
         return {"kind": o.violation, "sig": o.sig, "message": o.message,
                 "digest": log_digest(o.log), "trace": o.sample, "rec": chx.rec}
-    res = in_child(job, RUN_WALL_S * 3 + 30)
+    res = in_child(job, _wall(check) * 2 + 60)
     os.makedirs(os.path.join(VERIF_DIR, "out", "replays"), exist_ok=True)
     name = f"{check.ID}-{viol['index']}-{res['kind'] or 'none'}-{h64(minimal) & 0xFFFFFF:06x}.json"
     path = os.path.join(VERIF_DIR, "out", "replays", name)
@@ -497,7 +513,7 @@ def confirm_in_fresh_interpreter(check, path):
     env["PYTHONHASHSEED"] = "12345"
     env["PYTHONDONTWRITEBYTECODE"] = "1"
     p = subprocess.run([sys.executable, os.path.join(VERIF_DIR, "sim", "main.py"), check.ID, "--replay", path,
-                        "--machine"], capture_output=True, text=True, env=env, timeout=RUN_WALL_S * 4 + 120)
+                        "--machine"], capture_output=True, text=True, env=env, timeout=_wall(check) * 3 + 120)
     for line in p.stdout.splitlines():
         if line.startswith("REPLAY-RESULT "):
             return json.loads(line[len("REPLAY-RESULT "):]), p
@@ -636,7 +652,7 @@ def main_check(check, argv):
             o, chx = replay_choices(check, doc["choices"], render=True)
             return {"kind": o.violation, "sig": o.sig, "message": o.message, "digest": log_digest(o.log),
                     "trace": o.sample}
-        res = in_child(job, RUN_WALL_S * 3 + 60)
+        res = in_child(job, _wall(check) * 2 + 60)
         if "--machine" in argv:
             print("REPLAY-RESULT " + json.dumps({"kind": res["kind"], "digest": res["digest"], "sig": res["sig"]}))
         else:
